@@ -410,6 +410,14 @@ def run_C17(ctx):
     ctx.selftest(stm["n_mismatch"] == stm["nontrivial"], "C17 G: accepted cells are examined")
     for x, name in zip(_sweep(ctx, "c17", 3 if ctx.quick else 12), ("model", "corpus+mutations", "docs")):
         ctx.absorb(x, "G:sweep-c17(%s)" % name)
+    # M+G: OpenAPI.tla -- the export as a function of the catalog value; Sound(C) is C17 on the model; the real document is
+    # projected onto OAS(C).  What C17 states is a verdict, the rest of the skeleton is SPEC-DRIFT.
+    ro = ctx.tlc("MC_C17docs", cfg="MC_C17docs_quick.cfg" if ctx.quick else "MC_C17docs_thorough.cfg", timeout=3300)
+    reso = ctx.vh("c17-oas", ro.out, timeout=3300)
+    ctx.absorb(reso, "G:c17-oas")
+    ctx.cov["oas_skeleton_drift"] = reso.get("drift", 0)
+    sto = ctx.vh("c17-oas", ro.out, "selftest", timeout=3300)
+    ctx.selftest(sto["n_mismatch"] == sto["nontrivial"] and sto["nontrivial"] > 100, "C17 G: a corrupted OpenAPI skeleton is reported for every document with paths")
 
 
 def run_C06(ctx):
